@@ -6,7 +6,8 @@
 (* the scenario as one JSON line ("SCN").                                  *)
 (*                                                                         *)
 (* A scenario: 1..MaxBr branches, each existing already or not, all staged *)
-(* in one transaction; then 1..MaxLen operations, each CommitTx or Discard *)
+(* in one transaction; then MinLen..MaxLen operations, each CommitTx or     *)
+(* Discard                                                                 *)
 (* (so: re-run after a failure, commit again, discard after commit,        *)
 (* discard then commit, ...), at most MaxFail of them with an injected     *)
 (* failure ("err") or crash ("crashed") at the k-th store operation of     *)
@@ -20,7 +21,7 @@
 (*          stack of that many such commits (duplicates), -1 = elsewhere   *)
 (*   nlog   entries of the branch's log carrying the transaction           *)
 (*   nobj   commit objects made for this branch by the transaction         *)
-(* and the call's result ("ok", "err", or "crashed": it never returned),     *)
+(* and the call's result ("ok", "err", or "crashed": it never returned),   *)
 (* the transaction's status and (after a successful                        *)
 (* discard only: "none", otherwise "any") whether staged refs are left.    *)
 (*                                                                         *)
@@ -35,7 +36,7 @@
 (***************************************************************************)
 EXTENDS Txn, TLC, Json
 
-CONSTANTS MaxBr, MaxLen, MaxFail
+CONSTANTS MaxBr, MinLen, MaxLen, MaxFail
 
 VARIABLES scn, done
 gvars == <<st, run, budget, scn, done>>
@@ -57,7 +58,7 @@ OpSeqs(n) ==
       : f \in Faults(n, base, F) }
     : F \in {X \in SUBSET (1..len) : Cardinality(X) <= MaxFail} }
     : base \in [1..len -> Kinds] }
-    : len \in 1..MaxLen }
+    : len \in MinLen..MaxLen }
 
 Scenarios ==
   UNION { {[ex |-> ex, ops |-> ops] : ex \in [1..n -> BOOLEAN], ops \in OpSeqs(n)} : n \in 1..MaxBr }
@@ -81,7 +82,7 @@ Depth(s, id, old, src, d) ==
   ELSE LET c == s.commits[id] IN
        IF c.tx # T \/ c.src # src THEN -1 ELSE Depth(s, c.par, old, src, d + 1)
 
-NObj(s, src) == Cardinality({i \in 1..Len(s.commits) : s.commits[i].tx = T /\ s.commits[i].src = src})
+NObj(s, src) == Cardinality({i \in DOMAIN s.commits : s.commits[i].tx = T /\ s.commits[i].src = src})
 
 Obs(f, op, s0, n) ==
   <<f.run.res,
@@ -102,17 +103,23 @@ Seqs(s, ops, dev, tight, s0, n) ==
        IN UNION { {<<Obs(f, op, s0, n)>> \o rest : rest \in Seqs(f.s, Tail(ops), dev, tight, s0, n)}
                   : f \in fin }
 
+(* The deviations change nothing before the second CommitTx of a scenario  *)
+(* (the first one finds the transaction in progress and nothing logged),   *)
+(* so their sets are only computed for scenarios that have one.            *)
+TwoCommits(ops) == Cardinality({p \in 1..Len(ops) : ops[p].kind = "commit"}) >= 2
+
 Export(sc) ==
   LET s0 == Setup(sc.ex)
       n == Len(sc.ex)
       allowed == Seqs(s0, sc.ops, {}, FALSE, s0, n)
+      DevSeqs(dev) == IF TwoCommits(sc.ops) THEN Seqs(s0, sc.ops, dev, FALSE, s0, n) \ allowed ELSE {}
   IN [ex |-> sc.ex,
       ops |-> [p \in 1..Len(sc.ops) |-> <<sc.ops[p].kind, sc.ops[p].k, sc.ops[p].how>>],
       allowed |-> allowed,
       tight |-> Seqs(s0, sc.ops, {}, TRUE, s0, n),
-      dct |-> Seqs(s0, sc.ops, {"commit-twice"}, FALSE, s0, n) \ allowed,
-      drd |-> Seqs(s0, sc.ops, {"rerun-dup"}, FALSE, s0, n) \ allowed,
-      dboth |-> Seqs(s0, sc.ops, {"commit-twice", "rerun-dup"}, FALSE, s0, n) \ allowed]
+      dct |-> DevSeqs({"commit-twice"}),
+      drd |-> DevSeqs({"rerun-dup"}),
+      dboth |-> DevSeqs({"commit-twice", "rerun-dup"})]
 
 -----------------------------------------------------------------------------
 Init == /\ scn \in Scenarios
